@@ -59,20 +59,21 @@ fn filename(path: &Path) -> Result<OsString> {
 
 fn has_backup(file: &Path) -> Result<bool> {
     let fname = filename(file)?;
-    let exists = ls_file_dir(file)?
-        .any(|der| if let Ok(de) = der {
-            backup_digits(&fname, &de.path()).is_some()
-        } else {
-            false
-        });
-    Ok(exists)
+    // A listing that fails part-way tells us nothing about the
+    // entries we didn't get to see: that's an error, not "no backup".
+    for der in ls_file_dir(file)? {
+        if backup_digits(&fname, &der?.path()).is_some() {
+            return Ok(true);
+        }
+    }
+    Ok(false)
 }
 
 fn next_backup_num(file: &Path) -> Result<u64> {
     let fname = filename(file)?;
     let mut current: u64 = 0;
     for der in ls_file_dir(file)? {
-        let Ok(de) = der else { continue };
+        let de = der?;
         if let Some(digits) = backup_digits(&fname, &de.path()) {
             // Refuse rather than reuse a number at or below one we
             // can't represent.
